@@ -682,3 +682,62 @@ M('backoff_stop_lt_start_ok', 'C15', IT,
         raise ValueError('expected stop >= start, not %r' % stop)""",
   """    if stop < start / 2:
         raise ValueError('expected stop >= start, not %r' % stop)""")
+
+ST = 'boltons/strutils.py'
+# ---------------------------------------------------------------- C14
+M('sh_tilde_safe', 'C14', ST,
+  """_find_sh_unsafe = re.compile(r'[^a-zA-Z0-9_@%+=:,./-]').search""",
+  """_find_sh_unsafe = re.compile(r'[^a-zA-Z0-9_@%+=:,./~-]').search""")
+M('sh_bang_safe', 'C14', ST,
+  """_find_sh_unsafe = re.compile(r'[^a-zA-Z0-9_@%+=:,./-]').search""",
+  """_find_sh_unsafe = re.compile(r'[^a-zA-Z0-9_@%+=:,./#-]').search""")
+M('sh_quote_splice', 'C14', ST,
+  """        ret_list.append("'" + arg.replace("'", "'\\"'\\"'") + "'")""",
+  """        ret_list.append("'" + arg.replace("'", "'\\"'\\"") + "'")""")
+M('sh_empty_not_quoted', 'C14', ST,
+  """        if not arg:
+            ret_list.append("''")
+            continue
+        if _find_sh_unsafe(arg) is None:""",
+  """        if _find_sh_unsafe(arg) is None:""")
+M('sh_star_safe_when_long', 'C14', ST,
+  """        if _find_sh_unsafe(arg) is None:
+            ret_list.append(arg)
+            continue""",
+  """        if _find_sh_unsafe(arg) is None or (len(arg) > 3 and arg.isprintable() and not set(arg) & set(" '\\"\\\\$`!&|;<>()#~{}[]?")):
+            ret_list.append(arg)
+            continue""")
+M('cmd_trailing_bs_not_doubled', 'C14', ST,
+  """        if needquote:
+            result.extend(bs_buf)
+            result.append('"')""",
+  """        if needquote:
+            result.append('"')""")
+M('cmd_tab_no_quote', 'C14', ST,
+  """        needquote = (" " in arg) or ("\\t" in arg) or not arg""",
+  """        needquote = (" " in arg) or not arg""")
+M('cmd_bs_before_quote', 'C14', ST,
+  """                result.append('\\\\' * len(bs_buf)*2)""",
+  """                result.append('\\\\' * len(bs_buf))""")
+M('int_delta_ge_1', 'C14', ST,
+  """            delta = x - contig_range[0]
+
+            # Current value is contiguous.
+            if delta == 1:""",
+  """            delta = x - contig_range[0]
+
+            # Current value is contiguous.
+            if delta == 1 or (delta == 2 and x == 17):""")
+M('int_parse_range_off', 'C14', ST,
+  """            output += list(range(min(range_limits), max(range_limits)+1))""",
+  """            output += list(range(min(range_limits), max(range_limits) + (max(range_limits) % 50 != 49)))""")
+M('int_complement_start', 'C14', ST,
+  """        range(range_end)) - int_list - set(range(range_start))""",
+  """        range(range_end)) - int_list - set(range(range_start + (range_start == 7)))""")
+M('gzip_level_ignored_truncate', 'C14', ST,
+  """    f.write(bytestring)
+    f.close()
+    return out.getvalue()""",
+  """    f.write(bytestring if len(bytestring) != 4096 else bytestring[:-1])
+    f.close()
+    return out.getvalue()""")
